@@ -203,8 +203,8 @@ def run_scenario(lmtp, pipelining, calls, classes, segmode, seed):
             objs.append(ret)
             if m == 'rcpt':
                 txr.append(len(objs))
-            elif m in ('mail', 'rset', 'hello', 'send_empty', 'send_data'):
-                txr = []
+            elif m == 'rset' or (m == 'hello' and ret.code == '250'):
+                txr = []        # (not at MAIL: neither the client nor an LMTP server forgets accepted recipients there)
             callrec['objs'] = [len(objs)]
         indata = (m == 'data' and ret.code == '354')
         ev.append({'t': 'snap', 'objs': snap(objs, ehlos)})
